@@ -22,20 +22,34 @@ API since the repairs f1da483 (with_info validates the frame control) and 92ed98
 * `C19_validation`: with `validate_sequence`, on a sink that never fails,
   `Writer::finish = Ok ⇔` images written = declared.
 
-Still FALSE for the stream writer (theorems by `decide` on model runs, all reproduced on the real
-crate): `C19_stream_finish_counterexample` (D14), `C19_stream_validation_counterexample` (D14),
-`C19_stream_first_image_counterexample` (N8), and the reachable panics
-`C19_no_panic_counterexample_small_buffer` (N1), `…_fctl_io` (N2), `…_set_fctl` (N9).
+For the stream writer (repaired by d0d021f … 9136341: `finish` reports the sequence check, the IEND
+and the sink's flush; images are counted; no reachable `unreachable!()`/index panics are known any more):
+
+* `C19_stream_clean_partial`: programs over both APIs on a sink that never fails, inside the domain of
+  `C12_stream_partial` without the count requirement (arguments in range, every session complete): no
+  call panics; the `Writer` ends closed, exactly one IEND was attempted, and it is the last, complete
+  entry of the sink's log;
+* `C19_stream_validation_partial`: with `validate_sequence`, `Ok` from the final `finish` — `Writer::finish`
+  or the owned `StreamWriter::finish` — means that exactly the declared images were written and the chunks
+  are a valid skeleton; conversely `finish` is `Ok` whenever they were;
+* `C19_stream_sink_failures`: the former D14/N2/N9 runs with failing sinks, decided on the model
+  (and reproduced on the crate by the harness): the error is reported by the call that hits it and by
+  `finish`, nothing panics, one IEND attempt.
+
+These stay `_partial` because they hold for the sink that never fails only: on the stream path "no call
+panics" is FALSE for failing sinks — `C19_stream_no_panic_counterexample` (N12, open; predicted by the model,
+found on the crate by the fault sweep): after a failed row write a stale row index survives into the next,
+narrower frame.  The other clauses (one IEND, error reported by the failing call) are tied for every sink by
+the harness (write-fault sweep over every byte offset, once/permanent, flush faults) but not proved: the
+argument needs the exact interplay of flate2's retry loop, `ChunkWriter`'s `Ok(0)` on a full buffer and
+`Wrapper::Unrecoverable`.
+Still FALSE (N10, open): `C19_stream_finish_abandoned_counterexample` — with an abandoned stream-writer
+session every call incl. `finish` returns `Ok` under `validate_sequence` and the file is invalid.  By design
+of `Drop` (remainder of N11): a session dropped in the MIDDLE of an image cannot report a sink error
+(`C19_stream_drop_mid_image_example`); a complete session writes nothing in its drop.
 -/
 namespace Png.C19
 open Png Png.Val Png.Enc
-
-/-- The property at full strength: no run of the model — any configuration an `Encoder` can hold, both
-    APIs, any sink — contains a panic. -/
-def C19_no_panic_statement : Prop :=
-  ∀ (E : Codec) (Z : ZCodec) (c : Cfg) (beh : SinkBehaviour) (steps : List Step) (fin : PFinal),
-    c.inRange → c.Accepted →
-    (runProg E Z c beh steps fin).results.any anyPanic = false ∧ anyPanic (runProg E Z c beh steps fin).final = false
 
 /-- **No panic, whole-image API (full statement for that API).**  Any accepted configuration, any sink,
     any arguments, fewer than 2^32 operations. -/
@@ -109,39 +123,114 @@ theorem C19_failure_persists (k : Sink) (l : Nat) (h1 : k.beh.writeFailAt = some
   have hn : ¬ p.size ≤ 0 := by omega
   simp [Sink.emit, Sink.budget, h1, h2, h3, hn]
 
-/-- D14: `StreamWriter::finish` returns `Ok` although the sink, which fails after 40 bytes, never got
-    the rest of the IDAT chunk nor the IEND (they are written by `Drop` impls that discard errors). -/
-theorem C19_stream_finish_counterexample :
-    runD14.final = [.ok, .ok, .ok] ∧ runD14.state.sink.chunks.map (·.ty) = [tyIHDR] ∧
-    runD14.state.sink.count = 40 ∧ runD14.state.sink.fired = true := runD14_facts
+/-- **C19 for programs that use `StreamWriter` (partial: sink that never fails, every session complete).**
+    No call panics — `write_header`, every operation of either writer, every `finish`/drop; at the end the
+    `Writer` is closed, exactly one IEND emission was attempted, and the log ends with the complete IEND. -/
+theorem C19_stream_clean_partial (imgOk : ImgRule) (E : Codec) (Z : ZCodec) (c : Cfg) (hw : c.WellFormed) (hsm : c.Small)
+    (hE : Codec.Ok imgOk E c.color c.depth) (hZ : ZCodec.Ok imgOk Z c.color c.depth)
+    (steps : List Step) (fin : PFinal) (hdom : StreamDomain E Z c steps fin) :
+    (runProg E Z c {} steps fin).header = .ok ∧
+    (runProg E Z c {} steps fin).results.any anyPanic = false ∧
+    anyPanic (runProg E Z c {} steps fin).final = false ∧
+    (runProg E Z c {} steps fin).state.iendWritten = true ∧
+    (runProg E Z c {} steps fin).state.sink.iendAttempts = 1 ∧
+    (∃ pre, (runProg E Z c {} steps fin).state.sink.log = pre ++ [⟨.chunk iendChunk, 12⟩]) :=
+  stream_clean imgOk E Z c hw hsm hE hZ steps fin hdom
 
-/-- D14: validation on, 3 frames declared, 1 written: the stream writer's `finish` is `Ok` and the
-    file is closed with IEND (`validate_sequence_done` is unreachable on that path). -/
-theorem C19_stream_validation_counterexample :
-    runD14v.final = [.ok, .ok, .ok] ∧
-    runD14v.state.sink.chunks.map (·.ty) = [tyIHDR, tyACTL, tyFCTL, tyIDAT, tyIEND] := runD14v_facts
+/-- **`Ok` from `finish` means complete, through the stream writer** (partial: sink that never fails, every
+    session complete; `validate_sequence` on).  `fin.isFinish`: the program ends with `Writer::finish` or with
+    `finish` of an owned stream writer.  `Ok` ⇒ exactly the declared images were written (by either API) and
+    the sink's chunks are a valid skeleton.  Conversely, if they were written — and `into_stream_writer` at the
+    end was not refused (`newOk`; it is refused with `EndReached` when everything is written already) —
+    `finish` returns `Ok`. -/
+theorem C19_stream_validation_partial (imgOk : ImgRule) (E : Codec) (Z : ZCodec) (c : Cfg) (hw : c.WellFormed)
+    (hsm : c.Small) (hval : c.validate = true)
+    (hE : Codec.Ok imgOk E c.color c.depth) (hZ : ZCodec.Ok imgOk Z c.color c.depth)
+    (steps : List Step) (fin : PFinal) (hdom : StreamDomain E Z c steps fin) (hfin : fin.isFinish = true) :
+    ((runProg E Z c {} steps fin).final.getLast? = some .ok →
+      (runProg E Z c {} steps fin).declaredWritten ∧
+      ∃ rest, (runProg E Z c {} steps fin).state.sink.chunks = mkIhdr c :: rest ∧
+        skeletonOfChunks imgOk c.width c.height c.color rest = .ok ()) ∧
+    ((runProg E Z c {} steps fin).declaredWritten →
+      fin.newOk (Enc.runSteps E Z (writeHeader c {}).1 steps).1 →
+      (runProg E Z c {} steps fin).final.getLast? = some .ok) :=
+  stream_validation imgOk E Z c hw hsm hval hE hZ steps fin hdom hfin
 
-/-- N8: the declared image written through a borrowed stream writer is never counted:
-    `Writer::finish` reports `MissingFrames` although the stream is complete. -/
-theorem C19_stream_first_image_counterexample :
-    runN8.results = [[.ok, .ok, .ok]] ∧ runN8.final = [.err .missingFrames] ∧
-    runN8.state.sink.chunks.map (·.ty) = [tyIHDR, tyIDAT, tyIEND] := runN8_facts
+/-- one complete session, as a statement of its own: whatever the operations, a borrowed `Writer` comes
+    back in a state from which everything above continues (`JW`), an owned one is closed by `finish` (IEND
+    and sink flush, after the sequence check) or by its drop; `finish` is `Ok` exactly when `new` succeeded
+    and the sequence check passes -/
+theorem C19_stream_session {imgOk : ImgRule} {C D W H : Nat} {V : Bool} {Z : ZCodec} (hZ : ZCodec.Ok imgOk Z C D)
+    {w : WState} (hj : JW imgOk C D W H V w) (owned : Bool) (size : Nat) (ops : List SOp) (fin : Final)
+    (hr : ∀ o ∈ ops, o.inRange) (hc : SessionComplete Z w owned size ops) :
+    anyPanic (streamSession Z w owned size ops fin).2 = false ∧
+    ∃ w', JW imgOk C D W H V w' ∧
+      (owned = false → (streamSession Z w owned size ops fin).1 = w') ∧
+      (owned = true → (streamSession Z w owned size ops fin).1 = dropW w' ∨
+        ((streamSession Z w owned size ops fin).1 = flushedW (dropW w') ∧ fin = .finish ∧ validateSequenceDone w' = none)) ∧
+      ∃ r, (streamSession Z w owned size ops fin).2.getLast? = some r ∧
+        (fin = .finish → (r = .ok ↔ (SW.new w owned size).2 = .ok ∧ validateSequenceDone w' = none)) :=
+  session_spec hZ hj owned size ops fin hr hc
 
-/-- N1: animated + stream buffer shorter than 4 bytes: `self.buffer[0..4]` (encoder.rs:1288) -/
-theorem C19_no_panic_counterexample_small_buffer :
-    runN1.final.contains (.panic .chunkBufferIndex) = true ∧ ¬ C19_no_panic_statement := by
-  refine ⟨runN1_facts, fun h => ?_⟩
-  have := (h toyCodec toyZ (cfgAnim 2) {} [] (.intoStream 1 [.write [7]] .finish) (by decide) (by decide)).2
-  rw [show runProg toyCodec toyZ (cfgAnim 2) {} [] (.intoStream 1 [.write [7]] .finish) = runN1 from rfl] at this
-  revert this; decide
+/-- failing sinks on the stream path, decided on the model (the former D14, D14-validation, N8, N1, N2, N9
+    witnesses, now repaired): the sink accepts 40 bytes — the `write` that ends the image and `finish` report
+    the error, one IEND attempt; 1 of 3 declared frames with validation — `finish` reports `MissingFrames`;
+    the stream-written image is counted by `Writer::finish`; a 1-byte chunk buffer request works; a sink error
+    while the second fcTL is written is reported, the next calls do not panic; `write_image_data` failing
+    between fcTL and IDAT, three stream images later: no panic -/
+theorem C19_stream_sink_failures :
+    (runD14.final = [.ok, .err .io, .err .io] ∧ runD14.state.sink.iendAttempts = 1) ∧
+    (runD14v.final = [.ok, .ok, .err .missingFrames] ∧ runD14v.state.sink.iendAttempts = 1) ∧
+    (runN8.results = [[.ok, .ok, .ok]] ∧ runN8.final = [.ok]) ∧
+    runN1.final = [.ok, .ok, .ok] ∧
+    (anyPanic runN2.final = false ∧ runN2.final.take 3 = [.ok, .ok, .err .io]) ∧
+    (runN9.results.any anyPanic = false ∧ runN9.final = [.ok]) :=
+  ⟨⟨runD14_facts.1, runD14_facts.2.2⟩, runD14v_facts, ⟨runN8_facts.1, runN8_facts.2.1⟩, runN1_facts, runN2_facts, runN9_facts⟩
 
-/-- N2: sink error while the next frame's fcTL is written, then a complete row: `unreachable!()` (:1690) -/
-theorem C19_no_panic_counterexample_fctl_io :
-    runN2.final.contains (.panic .unreachableWrapper) = true ∧ runN2.final.take 3 = [.ok, .ok, .err .io] := runN2_facts
+/-- "No call panics" for programs with the stream writer on EVERY sink (any back-ends, arguments in range). -/
+def C19_stream_no_panic_statement : Prop :=
+  ∀ (E : Codec) (Z : ZCodec) (c : Cfg) (beh : SinkBehaviour) (steps : List Step) (fin : PFinal),
+    c.WellFormed → c.Small → (∀ s ∈ steps, s.inRange) → fin.inRange →
+    (runProg E Z c beh steps fin).results.any anyPanic = false ∧ anyPanic (runProg E Z c beh steps fin).final = false
 
-/-- N9: `panic!("This function must be called on an animated PNG")` (:1254) -/
-theorem C19_no_panic_counterexample_set_fctl :
-    runN9.results = [[.err .io], [.ok, .ok, .ok, .panic .setFctlNotAnimated]] := runN9_facts
+/-- N12 (open): two frames on a 2x1 canvas through `into_stream_writer_with_size(4)`, the second frame set to
+    1x1; the sink fails once (byte offset 91) during a `flush` in the middle of the first row.  `flush` =
+    `Err(io)`; the rest of the row = `Err(WriteZero)` — but the row is already recorded as complete
+    (`index = line_len`, `to_write = 0`); `flush` again = `WrittenTooMuch`; the next `write` starts the narrower
+    frame and slices `curr_buf[..line_len][index..]` with the stale index: panic at encoder.rs:1739.  The crate
+    shows the same results at the same offsets 91..107. -/
+theorem C19_stream_no_panic_counterexample :
+    ¬ C19_stream_no_panic_statement ∧
+    runN12.final = [.ok, .ok, .ok, .err .io, .err .writeZero, .err .writtenTooMuch, .panic .rowSlice] :=
+  ⟨stream_no_panic_counterexample, runN12_facts⟩
+
+/-- `C19_stream_validation_partial`'s first half WITHOUT the requirement that every session is complete. -/
+def C19_stream_finish_abandoned_statement : Prop :=
+  ∀ (c : Cfg) (steps : List Step) (fin : PFinal), c.WellFormed → c.Small → c.validate = true →
+    (∀ s ∈ steps, s.inRange) → fin.inRange → fin.isFinish = true →
+    (runProg toyCodec toyZ c {} steps fin).final.getLast? = some .ok →
+    runSkeletonOk c (runProg toyCodec toyZ c {} steps fin).state = true
+
+/-- N10 (open): with `validate_sequence`, two frames declared: frame 1, a stream writer opened and dropped,
+    frame 2, `finish` — every call returns `Ok`, two images are counted, and the file has three fcTL chunks. -/
+theorem C19_stream_finish_abandoned_counterexample :
+    ¬ C19_stream_finish_abandoned_statement ∧
+    runN10v.results = [[.ok], [.ok, .ok], [.ok]] ∧ runN10v.final = [.ok] ∧
+    runSkeletonOk (cfgAnim 2) runN10v.state = false :=
+  ⟨stream_abandoned_finish_counterexample, runN10v_facts.1, runN10v_facts.2.1, runN10v_facts.2.2.2⟩
+
+/-- remainder of N11 (by design of `Drop`): a session dropped in the middle of an image on a sink that fails
+    once during that drop: every call returns `Ok`, the IDAT chunk is missing.  (A complete session has
+    nothing left to write in its drop: `drop_between`.) -/
+theorem C19_stream_drop_mid_image_example :
+    runN11.results = [[.ok, .ok, .ok]] ∧ runN11.final = [.ok] ∧
+    runN11.state.sink.chunks.map (·.ty) = [tyIHDR, tyIEND] := ⟨runN11_facts.1, runN11_facts.2.1, runN11_facts.2.2.1⟩
+
+/-- dropping a stream writer that stands between two images writes nothing (but the IEND of an owned `Writer`) -/
+theorem C19_stream_drop_complete_silent {Z : ZCodec} {s : SW} {w : WState} {cap : Nat} {curr : Ty}
+    (hwr : s.wr = .chunk ⟨w, cap, [], curr⟩) (hidx : s.index = 0) (fb : WState) :
+    (s.drop Z).2 = .ok ∧ (s.drop Z).1.writerState fb = (if s.owned then dropW w else w) :=
+  drop_between hwr hidx fb
 
 /-- the former panics of N3 / N4 / N6 are refusals or plain successes now -/
 theorem C19_repaired_misuse :
@@ -159,5 +248,14 @@ example : (runWriter toyCodec (cfgAnim 2) { writeFailAt := some 70, writeOnce :=
     [.image [7], .image [7], .image [9]] .finish).final = some .ok := by decide
 set_option maxRecDepth 100000 in
 example : ∀ op ∈ [Op.setDim 1 1, .image [7], .image [7, 7], .image [9], .image [9]], op.inRange := by decide
+
+/-- the domain of the stream theorems on a program that uses both APIs, an animation with a sub-frame, buffer
+    size requests 0 and 3, an owned stream writer closed by `finish` -/
+example : cfgAnim4.WellFormed ∧ cfgAnim4.Small ∧ StreamDomain toyCodec toyZ cfgAnim4 stepsMixed finMixed ∧
+    finMixed.isFinish = true ∧ runMixed.final = [.ok, .ok, .ok] :=
+  ⟨runMixed_facts.1, runMixed_facts.2.1, runMixed_facts.2.2.1, rfl, runMixed_facts.2.2.2.2.1⟩
+example : StreamDomain toyCodec toyZ { width := 2, height := 2, validate := true }
+      [.stream 1 [.write [1, 2, 3], .flush, .write [4]] .drop] .finish ∧ runStill.final = [.ok] :=
+  ⟨runStill_facts.1, runStill_facts.2.2.1⟩
 
 end Png.C19
